@@ -1,6 +1,6 @@
 #!/bin/bash
 # matrix.sh [ids...] -- run every seeded mutation against its own check and neighbours
-declare -A N=( [C01]="C01 C04 C11" [C02]="C02 C10" [C03]="C03 C09 C12" [C04]="C04 C01" [C05]="C05 C07 C12" [C06]="C06 C02 C11 C15" [C07]="C07 C03 C05 C01" [C08]="C08 C14 C09" [C09]="C09 C03 C08" [C10]="C10 C02" [C11]="C11 C01 C04" [C12]="C12 C13" [C13]="C13 C12 C16" [C14]="C14 C08" [C15]="C15 C12" [C16]="C16 C13 C05" [C17]="C17 C14" [C18]="C18" )
+declare -A N=( [C01]="C01 C04 C11" [C02]="C02 C10" [C03]="C03 C09 C12" [C04]="C04 C01" [C05]="C05 C07 C12" [C06]="C06 C02 C11 C15" [C07]="C07 C03 C05 C01" [C08]="C08 C14 C09" [C09]="C09 C03 C08" [C10]="C10 C02" [C11]="C11 C01 C04" [C12]="C12 C13" [C13]="C13 C12 C16" [C14]="C14 C08 C17" [C15]="C15 C12" [C16]="C16 C13 C05" [C17]="C17 C14" [C18]="C18" )
 ids="${@:-$(ls /verif/seeded)}"
 for m in $ids; do
   p=${m%-*}
